@@ -133,6 +133,7 @@ type Violation struct {
 	Msg   string `json:"msg"`
 }
 
+//go:norace
 func (v *Violation) Sig() string { return v.Class + "|" + v.Key }
 
 var (
@@ -140,6 +141,7 @@ var (
 	heartbeat atomic.Int64
 )
 
+//go:norace
 func init() {
 	verifsim.Hook = globalHook
 	verifsim.RootProbe = func() int {
@@ -182,6 +184,8 @@ func goid() uint64 {
 }
 
 // NewSched must be called on the bubble's root goroutine.
+//
+//go:norace
 func NewSched(t *Tape) *Sched {
 	s := &Sched{
 		T:         t,
@@ -197,11 +201,16 @@ func NewSched(t *Tape) *Sched {
 }
 
 // Activate installs the scheduler; hooks reached before this are no-ops.
+//
+//go:norace
 func (s *Sched) Activate() { curSched.Store(s) }
+
+//go:norace
 func (s *Sched) Deactivate() {
 	curSched.Store(nil)
 }
 
+//go:norace
 func (s *Sched) Now() int64 { return int64(time.Since(s.start)) }
 
 //go:norace
@@ -210,6 +219,7 @@ func (s *Sched) mix(v uint64) {
 	s.hash *= 1099511628211
 }
 
+//go:norace
 func (s *Sched) Hash() uint64 { return s.hash }
 
 // Note adds a fact to the run's event hash (and trace).
@@ -223,6 +233,7 @@ func (s *Sched) Note(format string, a ...any) {
 	}
 }
 
+//go:norace
 func (s *Sched) TraceLines() []string { return s.trace }
 
 //go:norace
@@ -275,6 +286,8 @@ func (t *Task) park(kind int, site string, guard func() bool) {
 
 // Go creates a task; its goroutine parks immediately and starts only when the
 // scheduler selects it. Must be called from the root goroutine.
+//
+//go:norace
 func (s *Sched) Go(name string, body func(t *Task)) *Task {
 	ctx, cancel := context.WithCancel(context.Background())
 	t := &Task{ID: len(s.tasks), Name: name, s: s, wake: make(chan struct{}), Ctx: ctx, Cancel: cancel}
@@ -294,24 +307,7 @@ func (t *Task) main(body func(t *Task), ready chan struct{}) {
 	raceOff()
 	t.gid = goid()
 	close(ready)
-	defer func() {
-		raceOff()
-		if r := recover(); r != nil {
-			if _, ok := r.(abortTask); !ok {
-				buf := make([]byte, 2048)
-				n := runtime.Stack(buf, false)
-				t.Panic = fmt.Sprintf("%v\n%s", r, buf[:n])
-			}
-		}
-		if t.curOp != nil {
-			t.retPend, t.curOp = t.curOp, nil
-		}
-		atomic.StoreInt32((*int32)(&t.state), int32(stDone))
-		select {
-		case t.s.sig <- struct{}{}:
-		default:
-		}
-	}()
+	defer t.finish()
 	t.park(kStart, "start", nil)
 	raceOn()
 	body(t)
@@ -319,6 +315,26 @@ func (t *Task) main(body func(t *Task), ready chan struct{}) {
 }
 
 type abortTask struct{}
+
+//go:norace
+func (t *Task) finish() {
+	raceOff()
+	if r := recover(); r != nil {
+		if _, ok := r.(abortTask); !ok {
+			buf := make([]byte, 2048)
+			n := runtime.Stack(buf, false)
+			t.Panic = fmt.Sprintf("%v\n%s", r, buf[:n])
+		}
+	}
+	if t.curOp != nil {
+		t.retPend, t.curOp = t.curOp, nil
+	}
+	atomic.StoreInt32((*int32)(&t.state), int32(stDone))
+	select {
+	case t.s.sig <- struct{}{}:
+	default:
+	}
+}
 
 // Begin marks the start of an operation: the task parks (idle) and the
 // scheduler stamps the call when it releases the task into the operation.
@@ -375,37 +391,54 @@ func (t *Task) Sleep(d time.Duration) {
 	raceOn()
 }
 
-func (t *Task) Done() bool    { return taskState(atomic.LoadInt32((*int32)(&t.state))) == stDone }
-func (t *Task) parked() bool  { return taskState(atomic.LoadInt32((*int32)(&t.state))) == stParked }
+//go:norace
+func (t *Task) Done() bool { return taskState(atomic.LoadInt32((*int32)(&t.state))) == stDone }
+
+//go:norace
+func (t *Task) parked() bool { return taskState(atomic.LoadInt32((*int32)(&t.state))) == stParked }
+
+//go:norace
 func (t *Task) running() bool { return taskState(atomic.LoadInt32((*int32)(&t.state))) == stRunning }
 
 // BlockedInOp: at a quiescent point, the task is durably blocked inside the
 // code under test within the named operation ("" = any).
+//
+//go:norace
 func (t *Task) BlockedInOp(name string) bool {
 	return t.running() && t.curOp != nil && (name == "" || t.curOp.Name == name)
 }
 
 // MidOp: parked at a scheduling point inside an operation.
+//
+//go:norace
 func (t *Task) MidOp() bool { return t.parked() && t.curOp != nil }
 
 // Idle: between operations (parked before the next one) or finished.
+//
+//go:norace
 func (t *Task) Idle() bool {
 	return t.Done() || (t.parked() && t.curOp == nil)
 }
 
+//go:norace
 func (t *Task) Site() string { return t.site }
 
+//go:norace
 func (s *Sched) Tasks() []*Task { return s.tasks }
 
 // Fail records the first violation of the run and stops scheduling.
+//
+//go:norace
 func (s *Sched) Fail(class, key, format string, a ...any) {
 	if s.fail == nil {
 		s.fail = &Violation{Class: class, Key: key, Msg: fmt.Sprintf(format, a...)}
 	}
 }
 
+//go:norace
 func (s *Sched) Failed() *Violation { return s.fail }
 
+//go:norace
 func (s *Sched) enabled() []*Task {
 	var en []*Task
 	prog := atomic.LoadUint64(&s.progress)
@@ -429,6 +462,7 @@ func (s *Sched) enabled() []*Task {
 	return en
 }
 
+//go:norace
 func (s *Sched) stamp() {
 	for _, t := range s.tasks {
 		if t.retPend != nil {
@@ -448,6 +482,7 @@ func (s *Sched) stamp() {
 	}
 }
 
+//go:norace
 func firstLine(s string) string {
 	for i := 0; i < len(s); i++ {
 		if s[i] == '\n' {
@@ -457,6 +492,7 @@ func firstLine(s string) string {
 	return s
 }
 
+//go:norace
 func (s *Sched) allDone() bool {
 	for _, t := range s.tasks {
 		if !t.daemon && !t.Done() {
@@ -466,6 +502,7 @@ func (s *Sched) allDone() bool {
 	return true
 }
 
+//go:norace
 func (s *Sched) drainSig() {
 	select {
 	case <-s.sig:
@@ -473,6 +510,7 @@ func (s *Sched) drainSig() {
 	}
 }
 
+//go:norace
 func (s *Sched) release(t *Task) {
 	if t.kind == kLockWait {
 		s.LockWaits++
@@ -533,6 +571,7 @@ func (s *Sched) release(t *Task) {
 	heartbeat.Add(1)
 }
 
+//go:norace
 func (s *Sched) choose(en []*Task) *Task {
 	if len(en) == 1 {
 		// still consume nothing: a forced move is not a choice
@@ -579,6 +618,8 @@ func (s *Sched) choose(en []*Task) *Task {
 
 // Run executes the schedule until every task is done, a violation is
 // recorded, the step cap is hit, or nothing can happen any more.
+//
+//go:norace
 func (s *Sched) Run() {
 	s.Activate()
 	defer s.Deactivate()
@@ -610,6 +651,7 @@ func (s *Sched) Run() {
 	}
 }
 
+//go:norace
 func (s *Sched) loop() {
 	for s.fail == nil {
 		s.stamp()
@@ -662,6 +704,8 @@ func (s *Sched) loop() {
 // idle lets virtual time advance until some goroutine parks at a scheduling
 // point or IdleLimit passes with nothing happening. Returns false if nothing
 // will ever happen (everything left is blocked for good).
+//
+//go:norace
 func (s *Sched) idle() bool {
 	lockWaiters := false
 	for _, t := range s.tasks {
@@ -691,6 +735,8 @@ func (s *Sched) idle() bool {
 }
 
 // drain tries to let every goroutine finish so the bubble can end cleanly.
+//
+//go:norace
 func (s *Sched) drain() {
 	s.draining = true
 	s.Activate()
@@ -738,6 +784,7 @@ func (s *Sched) drain() {
 	s.stampQuiet()
 }
 
+//go:norace
 func (s *Sched) stampQuiet() {
 	for _, t := range s.tasks {
 		if t.retPend != nil && !t.running() {
@@ -747,6 +794,8 @@ func (s *Sched) stampQuiet() {
 }
 
 // Leftover reports tasks that did not finish (after drain).
+//
+//go:norace
 func (s *Sched) Leftover() int {
 	n := 0
 	for _, t := range s.tasks {
@@ -759,6 +808,8 @@ func (s *Sched) Leftover() int {
 
 // RootCall runs f on the scheduler's goroutine; if f would block on a lock
 // held by a parked task it is abandoned and ok=false is returned.
+//
+//go:norace
 func RootCall(f func()) (ok bool) {
 	defer func() {
 		if r := recover(); r != nil {
